@@ -119,6 +119,7 @@ func init() {
 			"DecISMFlag makes DecodeFile seek to the end and back to offset 0 of the reader in both modes, so it cannot be combined with a decode start other than offset 0; the advanced-reader family drops that flag",
 			"File.Info is a rendering of the box tree with its sizes (observe_at of the property names the Info dump): the two trees being the same tree, every level spec must print the same text; compared before sample access fills trun defaults into one tree",
 			"DecodeBoxLazyMdat(pos, rs) takes the position from the caller and reads at the reader's current offset: the two need not be the same numbers (boxes cut out of, or stored inside, an enclosing file)",
+			"scope (round 8): the two modes of the statement are DecodeFile/DecodeBox with and without DecModeLazyMdat/DecodeBoxLazyMdat, and its encode sentence is about a lazily DECODED mdat judged against the original box in the file. Not observed on purpose: (a) an mdat that is lazily WRITTEN, i.e. whose size is accumulated from sample metadata by Fragment.AddSample/AddSamples/AddSampleToTrack or set with SetLazyDataSize (no decode, no original box; the expected header would be a sum over the samples added, which is fragment building: C05 samples written into fragments, C02 Size = header size field, C11 segmenter -lazy); the mdat-side code such a box shares with a decoded one (Size/HeaderSize/Encode at lazy sizes around 2^32) is observed through the giants; (b) mp4.GetTopBoxInfoList, a header lister that builds no box tree, is neither decode mode and is called by none of the anchored files. Top-level boxes without payload do occur in the decode comparison (counter set empty_top_level_box)",
 		},
 		Setup: setup,
 		// a case normally takes milliseconds; a data call that never returns in one mode is a difference between the modes
@@ -361,6 +362,16 @@ func (s *state) check() {
 	var mdats []mdatPair
 	for i := range fm.Children {
 		bm, bl, nd := fm.Children[i], fl.Children[i], nodes[i]
+		if nd.Size == nd.HdrLen {
+			// evidence only (round 8): top-level boxes without payload, after which a position is easily miscounted
+			where := "between"
+			if i == 0 {
+				where = "first"
+			} else if i == len(nodes)-1 {
+				where = "last"
+			}
+			c.Seen("empty_top_level_box", fmt.Sprintf("%q header=%d %s", nd.Type, nd.HdrLen, where))
+		}
 		if bm.Type() != bl.Type() || bm.Type() != nd.Type {
 			c.Violation("tree/type", fmt.Sprintf("%s: child %d is %s in memory mode, %s in lazy mode, %s in the file", s.name, i, bm.Type(), bl.Type(), nd.Type), s.detail(nil))
 			return
